@@ -40,15 +40,22 @@ func openHist(filename string) (list []Item, err error) {
 		return list, err
 	}
 
-	scanner := bufio.NewScanner(file)
-	for scanner.Scan() {
+	// bufio.Scanner gives up at the first line longer than its token limit
+	// (64 KiB) which would hide that entry and every entry after it, so read
+	// lines of any length instead.
+	reader := bufio.NewReader(file)
+	for {
+		line, readErr := reader.ReadBytes('\n')
+
 		var item Item
-		err := json.Unmarshal(scanner.Bytes(), &item)
-		if err != nil || len(item.Block) == 0 {
-			continue
+		if json.Unmarshal(line, &item) == nil && len(item.Block) != 0 {
+			item.Index = len(list)
+			list = append(list, item)
 		}
-		item.Index = len(list)
-		list = append(list, item)
+
+		if readErr != nil {
+			break
+		}
 	}
 
 	file.Close()
